@@ -24,6 +24,17 @@ Proof.
   repeat split; intros H; rewrite H; reflexivity.
 Qed.
 
+Lemma explicit_key_precedence_l : forall K e k v, get k e = Some v ->
+  ev_call K e k = v /\ plain K e k = v /\
+  (k = "degree"%string -> c_degree K e = vnum v) /\
+  (k = "midinote"%string -> c_midinote K e = vnum v) /\
+  (k = "freq"%string -> c_freq K e = vnum v).
+Proof.
+  intros K e k v H. split; [exact (explicit_l K e k v H)|]. split; [exact (plain_explicit K e k v H)|].
+  destruct (inner_explicit K e v) as [A [B C]].
+  repeat split; intros E; subst k; auto.
+Qed.
+
 (* a key that is absent falls back to the class default (keys without a default function) *)
 Lemma default_l : forall K e k, get k e = None ->
   In k ["detune"; "harmonic"; "ctranspose"; "mtranspose"; "gtranspose"; "octave"; "root"; "dur"; "legato";
@@ -161,6 +172,32 @@ Proof.
 Qed.
 End Pitch.
 
+Lemma pitch_chain_l : forall K e s gt root oct ct har det,
+  Proper (Qeq ==> Qeq) (k_midicps K) -> pscale K e = s -> ~ sc_spo s == 0 ->
+  val (pnum K e "gtranspose") gt -> val (pnum K e "root") root -> val (pnum K e "octave") oct ->
+  val (pnum K e "ctranspose") ct -> val (pnum K e "harmonic") har -> val (pnum K e "detune") det ->
+  (forall vd d mt, get "degree" e = Some vd -> get "note" e = None -> get "midinote" e = None -> get "freq" e = None ->
+     (0 < List.length (sc_degrees s))%nat -> ok (nadd (vnum vd) (pnum K e "mtranspose")) ->
+     d = nadd (vnum vd) (pnum K e "mtranspose") -> mt = note_spec s d ->
+     val (r_note K e) mt /\ val (r_midinote K e) (midi_spec s gt root oct mt) /\
+     val (r_freq K e) (k_midicps K (midi_spec s gt root oct mt)) /\
+     val (detuned_freq K e) (k_midicps K (midi_spec s gt root oct mt) * har + det)) /\
+  (forall vn n, get "note" e = Some vn -> get "midinote" e = None -> get "freq" e = None -> val (vnum vn) n ->
+     val (r_midinote K e) (midi_spec s gt root oct n) /\
+     val (r_freq K e) (k_midicps K (midi_spec s gt root oct n + ct)) /\
+     val (detuned_freq K e) (k_midicps K (midi_spec s gt root oct n + ct) * har + det)) /\
+  (forall vm m, get "midinote" e = Some vm -> get "freq" e = None -> val (vnum vm) m ->
+     val (r_freq K e) (k_midicps K (m + ct)) /\ val (detuned_freq K e) (k_midicps K (m + ct) * har + det)) /\
+  (forall vf f, get "freq" e = Some vf -> val (vnum vf) f -> val (detuned_freq K e) (f * har + det)).
+Proof.
+  intros K e s gt root oct ct har det HP Hs Hspo Hgt Hroot Hoct Hct Hhar Hdet.
+  split; [|split; [|split]].
+  - intros. eapply chain_from_degree; eauto.
+  - intros. eapply chain_from_note; eauto.
+  - intros. eapply chain_from_midinote; eauto.
+  - intros. eapply chain_from_freq; eauto.
+Qed.
+
 (* ---- amplitude ----------------------------------------------------------------------------------- *)
 Lemma amp_chain_l : forall K e,
   (forall vd d, get "db" e = Some vd -> val (vnum vd) d -> Proper (Qeq ==> Qeq) (k_dbamp K) ->
@@ -201,4 +238,17 @@ Lemma dur_chain_rest : forall K e d st dq sq,
 Proof.
   intros K e d st dq sq Hd Hst Vd Vs Hn. exists (nmul d st). split; [|apply val_nmul; assumption].
   unfold ev_call. rewrite Hn. cbn. unfold r_delta. rewrite Hd, Hst. reflexivity.
+Qed.
+
+(* the hypotheses of the pitch chain are met by a concrete event *)
+Definition K0k : kern := mkK (fun x => x) (fun x => x) (fun x => x) (fun x => x).
+Definition ex_event_k : event := [("degree"%string, VNum (I 9)); ("mtranspose"%string, VNum (I (-1))); ("octave"%string, VNum (F 4))].
+Lemma pitch_chain_hypotheses_met_l :
+  Proper (Qeq ==> Qeq) (k_midicps K0k) /\ pscale K0k ex_event_k = major /\ ~ sc_spo major == 0 /\
+  val (pnum K0k ex_event_k "octave") 4 /\ val (pnum K0k ex_event_k "gtranspose") 0 /\
+  get "degree" ex_event_k = Some (VNum (I 9)) /\ get "note" ex_event_k = None /\
+  ok (nadd (vnum (VNum (I 9))) (pnum K0k ex_event_k "mtranspose")).
+Proof.
+  split; [intros x y H; exact H|]. split; [reflexivity|]. split; [vm_compute; discriminate|].
+  repeat split; reflexivity.
 Qed.
